@@ -438,6 +438,7 @@ fn permutations(n: usize) -> Vec<Vec<usize>> {
 }
 
 pub fn run_spec(spec: &WorldSpec) -> Result<String, String> {
+    crate::util::crash_note(&format!("{{\"engine\":\"mc-sl\",\"property\":\"C14\",\"oracle\":\"process crash during a round trip\",\"spec\":{}}}", serde_json::to_string(spec).unwrap_or_default()));
     let r = catch(|| if spec.uuid { roundtrip::<UuidMarker>(spec) } else { roundtrip::<SM>(spec) });
     match r {
         Ok(x) => x,
